@@ -481,6 +481,72 @@ def _case_rejections(run, rng, quick, case_seed, icase):
     return case
 
 
+def _case_large_bond(run, rng, quick, case_seed, icase):
+    """many long-range product terms sum_s c_s P_s(A) Q_s(B) with all P_s and all Q_s distinct: operator bonds of several hundred,
+    nodes whose (children bonds x parent bond) index space exceeds 2^16 (index arithmetic in narrow integer types shows here)"""
+    from renormalizer.tn.treebase import BasisTree
+    from renormalizer.tn.tree import TTNO
+    from renormalizer.tn.node import TreeNodeBasis
+    from renormalizer.model.basis import BasisHalfSpin, BasisDummy
+    from renormalizer import Op
+    case = Case(run, case_seed, "large-bond", icase)
+    na = nb = 5
+    nterm = int(rng.choice([300, 400]))
+    syms = ["I", "sigma_x", "sigma_z", "sigma_+"]
+    mats = {"I": np.eye(2), "sigma_x": np.array([[0.0, 1.0], [1.0, 0.0]]), "sigma_z": np.diag([1.0, -1.0]), "sigma_+": np.array([[0.0, 1.0], [0.0, 0.0]])}
+    n = na + nb
+    bl = [BasisHalfSpin(f"s{i}") for i in range(n)]
+
+    def strings(k, length):
+        codes = rng.choice(4 ** length - 1, size=k, replace=False) + 1
+        out = []
+        for c in codes:
+            c = int(c)
+            st = []
+            for _ in range(length):
+                st.append(c % 4)
+                c //= 4
+            out.append(st)
+        return out
+    sa, sb = strings(nterm, na), strings(nterm, nb)
+    coeffs = np.round(rng.uniform(0.5, 1.5, size=nterm) * rng.choice([-1, 1], size=nterm), 3)
+    terms = []
+    dense = np.zeros((2 ** n, 2 ** n))
+    for a, b, c in zip(sa, sb, coeffs):
+        st = a + b
+        terms.append(Op.product([Op(syms[j], f"s{i}") for i, j in enumerate(st) if j != 0]) * float(c))
+        m = np.eye(1)
+        for j in st:
+            m = np.kron(m, mats[syms[j]])
+        dense += c * m
+
+    def chain_nodes(sets):
+        nodes = [TreeNodeBasis([b]) for b in sets]
+        for n1, n2 in zip(nodes[:-1], nodes[1:]):
+            n1.add_child(n2)
+        return nodes
+    shape = str(rng.choice(["linear", "virtual-root"]))
+    if shape == "linear":
+        tree = BasisTree.linear(bl[::-1])
+    else:
+        root = TreeNodeBasis([BasisDummy(("c02 virtual", icase))])
+        root.add_child(chain_nodes(bl[:na])[0])
+        root.add_child(chain_nodes(bl[na:])[0])
+        tree = BasisTree(root)
+    case.info.update(shape=shape, nterm=nterm, coefficients_seed=case_seed)
+    scale = float(np.abs(dense).max())
+    for algo in ("Hopcroft-Karp",) if quick else ("Hopcroft-Karp", "qr"):
+        try:
+            ttno = TTNO(tree, terms, algo=algo)
+            got = np.asarray(ttno.todense(bl))
+        except Exception as e:  # noqa
+            case.violation(f"large-bond:{algo}:raises:{type(e).__name__}", error=repr(e)[:300])
+            continue
+        run.count(f"large-bond:{shape}:{algo}:max-bond={max(int(x) for x in ttno.bond_dims)}")
+        case.close("large-bond", algo, got, dense, 1e-9, scale)
+    return case
+
+
 # ---------------------------------------------------------------------------------------------
 GENERATORS = {}
 
@@ -497,7 +563,8 @@ def search(run, rng, quick):
     budget = 45.0 if quick else 520.0
     plan = [("random-tree", _case_random_tree, 100 if quick else 2000),
             ("builders", _case_builders, 35 if quick else 600),
-            ("rejections", _case_rejections, 1)]
+            ("rejections", _case_rejections, 1),
+            ("large-bond", _case_large_bond, 1 if quick else 4)]
     queue = []
     for name, fn, n in plan:
         queue += [(i / n, name, fn, i) for i in range(n)]
@@ -541,4 +608,5 @@ def search(run, rng, quick):
     run.cov["budget_stop"] = stopped
 
 
-GENERATORS.update({"random-tree": _case_random_tree, "builders": _case_builders, "rejections": _case_rejections})
+GENERATORS.update({"random-tree": _case_random_tree, "builders": _case_builders, "rejections": _case_rejections,
+                   "large-bond": _case_large_bond})
